@@ -130,7 +130,7 @@ PROPS = {
         ],
     },
     'C13': {
-        'streams': ['pool'],
+        'streams': ['pool', 'poolsrv'],
         'shrink': {},
         'assumptions': [
             "partial: the theorems cover every interleaving of the MODEL (mpsc channel = FIFO queue received from under the mutex; Mutex, thread::spawn/join as usual); the code is tied to it by acceptance of recorded event traces of real runs - OS schedules are sampled, not enumerated",
